@@ -289,6 +289,10 @@ func (u *Unit) exec(st *State, fr *Frame, b *ssa.BasicBlock, i int, pred *ssa.Ba
 }
 
 func (u *Unit) doReturn(st *State, fr *Frame, res []Val, in *ssa.Return) {
+	if fr.Parent == nil && fr.Top {
+		u.topReturn(st, fr, res)
+		return
+	}
 	if fr.OnReturn != nil {
 		fr.OnReturn(st, fr.Parent, res)
 		return
